@@ -59,6 +59,14 @@ def midpoint_cases(rng, mant, expb, n):
                 # a distance from the midpoint whose low 32 / 64 bits vanish (inexactness judged from a truncated word)
                 j = rng.choice((1, 2, 3, rng.randrange(1, 1 << 20)))
                 ds = ds + ((j << 64), -(j << 64), (j << 32), -(j << 32), (j << 64) + 1, (j << 96))
+            # ... and a distance equal to the weight of the bits a conversion drops when it pre-shifts a long coefficient:
+            # 2^(j-1), 2^j, 2^(j-2) with j = bitlen(c) - bitlen(10^s) - (mant + 2), and a few random powers of two
+            jsh = c0.bit_length() - P10[s].bit_length() - (mant + 2)
+            extra = []
+            for t in (jsh - 2, jsh - 1, jsh, jsh + 1, rng.randrange(0, 100), rng.randrange(0, 100)):
+                if 0 <= t < 120:
+                    extra += [1 << t, -(1 << t)]
+            ds = tuple(ds) + tuple(extra)
             for d in ds:
                 c = c0 + d
                 if 0 < c <= M:
